@@ -228,7 +228,7 @@ func TestKnownDeleteRepoLeftover(t *testing.T) {
 			t.Fatalf("%v (hung=%v panicked=%v)", err, hung, panicked)
 		}
 		if err != nil {
-			if !strings.Contains(err.Error(), "objects removed from the metadata stores differ") || !strings.Contains(err.Error(), "bundle-files-0.yaml") || strings.Contains(err.Error(), "unexpected") {
+			if !strings.Contains(err.Error(), "objects removed from the metadata stores differ") || !strings.Contains(err.Error(), "bundle-files-0.yaml") || strings.Contains(err.Error(), "must not be removed") {
 				t.Fatalf("unexpected kind of failure: %v", err)
 			}
 			failures = append(failures, err.Error())
